@@ -56,7 +56,7 @@ func feElem(c *h.Ctx, class int) feLimbs {
 }
 
 func c14Field(c *h.Ctx, part int) {
-	n := 24
+	n := 16
 	if c.Thorough() {
 		n = 300
 	}
